@@ -49,7 +49,8 @@ type (
 		Name      string
 		Val, Body Expr
 	}
-	EStar struct{ X Expr } // locset s[*] (only in modifies)
+	EStar   struct{ X Expr } // locset s[*] (only in modifies)
+	EUpdate struct{ X, K, V Expr }
 )
 
 type Param struct {
@@ -346,6 +347,13 @@ func (p *parser) postfix(e Expr) Expr {
 			var lo Expr
 			if !p.isOp(":") {
 				lo = p.expr(0)
+			}
+			if p.isOp(":=") {
+				p.pos++
+				nv := p.expr(0)
+				p.expectOp("]")
+				e = &EUpdate{e, lo, nv}
+				continue
 			}
 			if p.isOp(":") {
 				p.pos++
